@@ -1,7 +1,7 @@
 (* C02 — csync locks: grantable waiters are granted, cancelled waiters leave no trace.
    Liveness is stated as quiescence safety (DESIGN.md section 3.2): in every reachable state in
    which no internal step is enabled, no blocked caller could be granted. *)
-From Util Require Import Common.Base Common.ListLemmas CSync.RWModel CSync.RWProofs CSync.MModel CSync.MProofs.
+From Util Require Import Common.Base Common.ListLemmas CSync.RWModel CSync.RWProofs CSync.MModel CSync.MProofs CSync.MTerm.
 
 (* the invariant behind it: a caller blocked on a still-open channel is not grantable *)
 Theorem c02_rwmutex_no_lost_wakeup : forall es,
@@ -95,3 +95,28 @@ Theorem c02_mutex_no_residue : forall es,
   b2n (locked s) = cnt mholds (macts s) /\ (forall x, mp x = MCanceled \/ mp x = MTFalse -> mholds x = false).
 Proof. exact mutex_no_residue. Qed.
 Print Assumptions c02_mutex_no_residue.
+
+(* "without needing any further unrelated acquire or release": internal steps terminate.  Every internal event
+   (a critical section of a caller at a gate, a wake-up, a give-up) that changes the state strictly decreases an
+   explicit measure, so from every reachable state every run of effective internal events is at most [mmeasure s]
+   long; and a state in which no internal event changes anything is quiescent, where the clauses above apply. *)
+Theorem c02_mutex_internal_step_decreases : forall es e,
+  let s := mrun es in
+  internal e = true -> mstep s e <> s -> mmeasure (mstep s e) < mmeasure s.
+Proof. intros es e s. apply internal_step_decreases. exact (mrun_inv es). Qed.
+Print Assumptions c02_mutex_internal_step_decreases.
+
+Theorem c02_mutex_internal_steps_terminate : forall es is,
+  effective_run (mrun es) is -> length is <= mmeasure (mrun es).
+Proof. intros es is. apply internal_steps_terminate. exact (mrun_inv es). Qed.
+Print Assumptions c02_mutex_internal_steps_terminate.
+
+Theorem c02_mutex_stuck_is_quiescent : forall s,
+  (forall a, mstep s (MSect a) = s /\ mstep s (MWake a) = s /\ mstep s (MCancelWake a) = s) -> mquiescent s = true.
+Proof. exact stuck_is_quiescent. Qed.
+Print Assumptions c02_mutex_stuck_is_quiescent.
+
+Example c02_example_mutex_measure :
+  let s := mrun [MCallLock; MSect 0; MCallLock; MSect 1; MCallLock; MSect 2; MRelease 0] in
+  mmeasure s = 8 /\ mmeasure (mstep s (MSect 0)) = 4 /\ effective_run s [MSect 0; MWake 1; MWake 2; MSect 2; MSect 1].
+Proof. vm_compute. repeat split; discriminate. Qed.
